@@ -194,8 +194,15 @@ func costCommand(args []string) bool {
 		Time4N     int64   `json:"time_ns_64n"`
 		TimeRatio  float64 `json:"time_ratio"`
 	}
+	only := ""
+	if len(args) > 1 {
+		only = args[1] // measure this family only (the confirmation of a time-only failure)
+	}
 	var rows []row
 	for _, f := range families {
+		if only != "" && f.Name != only {
+			continue
+		}
 		// announce the family first (one JSON object per line, flushed): if the process is killed while measuring it
 		// (a quadratic family can exhaust memory or time), the reader knows which one it was
 		fmt.Printf("{\"starting\": %q}\n", f.Name)
